@@ -373,6 +373,13 @@ class K(object):
     def __call__(self, o, *args, **kwargs): return c3(*args, **kwargs)
 obj = K()
 ''', 'obj', None),
+    ('wrapper_decorator', '''
+from sigtools import wrappers
+def _deco(func, {outer}*args, **kwargs): return func(*args, **kwargs)
+deco = wrappers.wrapper_decorator(_deco)
+def _c1({inner}): return 0
+c1 = deco(_c1)
+''', 'c1', None),
     ('closure-factory', '''
 def c3({inner}): return 0
 def c2(q=None): return 0
@@ -478,6 +485,9 @@ def check_retrieval(tname, inner, mid, outer, stats):
                     stats.fail('C08/retrieval/outermost-depth', dict(case, via=label), '%s: depth of the outermost callable is %d' % (desc, ds[0]))
                 if any(b <= a for a, b in zip(ds, ds[1:])):
                     stats.fail('C08/retrieval/depth-not-increasing', dict(case, via=label), '%s: depths along the chain %s are %s' % (desc, t[3], ds))
+            if tname == 'wrapper_decorator' and g['_deco'] in depths and g['_c1'] in depths and not depths[g['_deco']] < depths[g['_c1']]:
+                stats.fail('C08/retrieval/depth-not-increasing', dict(case, via=label),
+                           '%s: the wrapping function (depth %d) calls the wrapped one (depth %d)' % (desc, depths[g['_deco']], depths[g['_c1']]))
             if tname == 'diamond' and label == 'sigtools.signature':
                 c3 = g['c3']
                 if c3 in depths and depths[c3] != 1:
